@@ -1,1 +1,2 @@
 pub mod dframe;
+pub mod node;
